@@ -302,6 +302,7 @@ def run(ck):
     rs, ml = run_both(jobs, "c08", timeout_per_job=1.0)
     log(f"[C08] exhaust jobs done {time.time() - ck.t0:.1f}s")
     mism = 0
+    useful_cmp = [0, 0]
     verdicts = {}
     wjobs, wmeta = [], {}
     force_jobs = []
@@ -311,6 +312,21 @@ def run(ck):
         r, mo = rs.get(jid, "(no-result)"), ml.get(jid, "(no-result)")
         r_cmp, missing = strip_field(r, "missing")
         m_cmp, uncov = strip_field(mo, "uncov")
+        m_cmp, umissing = strip_field(m_cmp, "umissing")
+        # the Gallina model of the REAL algorithm (Exhaust/Useful.v, proved sound and complete) against the real one:
+        # same witnesses (sorted), in particular the same verdict
+        if umissing is not None and umissing != "(umissing nofuel)":
+            rv0 = verdict_of(r)
+            if rv0 == "nonexh" or rv0 == "accepted":
+                want = "(umissing" + ((" " + missing[len("(missing "):-1]) if missing else "") + ")"
+                useful_cmp[0] += 1
+                if " ".join(umissing.split()) != " ".join(want.split()):
+                    useful_cmp[1] += 1
+                    if useful_cmp[1] <= 3:
+                        ck.violation("the model of check.rs's usefulness algorithm (Exhaust/Useful.v) and the real checker "
+                                     "report different missing cases", {"program": srcs[jid], "rust_missing": missing,
+                                     "model_missing": umissing, "correspondence": "Exhaust/Useful.v check_exhaustive vs "
+                                     "check.rs check_exhaustiveness (witness lists, sorted)"}, found_input=False)
         rv, mv = verdict_of(r), verdict_of(mo)
         verdicts[rv.split(" ")[0].strip("()") + ("" if not rv.startswith("(err") else ":" + rv[5:-1])] = \
             verdicts.get(rv.split(" ")[0].strip("()") + ("" if not rv.startswith("(err") else ":" + rv[5:-1]), 0) + 1
@@ -425,6 +441,11 @@ def run(ck):
                                 "witness_ok": ok}, key=classify(m, what))
     ck.obligation("correspondence: parsed patterns, accept/reject verdict and the arm (with binding) selected by the "
                   "compiled circuit equal the model on every generated match", mism == 0, f"{mism} differing jobs")
+    ck.obligation("correspondence Exhaust/Useful.v = check.rs usefulness: the model of the real exhaustiveness algorithm "
+                  "(proved sound and complete, UsefulProofs.v) returns exactly the real checker's missing cases on every "
+                  "generated well-typed match", useful_cmp[1] == 0 and useful_cmp[0] > 0,
+                  f"{useful_cmp[1]} of {useful_cmp[0]} differ")
+    ck.coverage["useful_model_tied_matches"] = useful_cmp[0]
     ck.obligation("the verified procedure decided at least 98% of the generated matches (the others exceed the cap on "
                   "region products and are skipped, never guessed)", undecided * 50 <= len(matches),
                   f"{undecided} undecided of {len(matches)}")
